@@ -181,6 +181,41 @@ class Ctx:
         mv = dict(self.vars)
         if model_vars:
             mv.update(model_vars)
+        # probes: both sides of every equality in the claim, evaluated in a counterexample (so that a replay can check "the real code returns
+        # L at this input, the contract demands R")
+        eqs = []
+        def _eqs(t, depth=0):
+            if depth > 6 or len(eqs) >= 40:
+                return
+            if z3.is_and(t):
+                for c in t.children():
+                    _eqs(c, depth + 1)
+            elif z3.is_eq(t) and t.arg(0).sort() == z3.RealSort():
+                eqs.append((t.arg(0), t.arg(1)))
+        try:
+            _eqs(claim)
+        except Exception:
+            eqs = []
+        for i, (l_, r_) in enumerate(eqs):
+            mv['_eq%d.l' % i] = l_
+            mv['_eq%d.r' % i] = r_
+        # every input symbol of the goal gets a value in a counterexample (not only the variables the contract registered)
+        try:
+            seen_ids, todo, n_c = set(), [claim] + list(assumptions), 0
+            while todo and n_c < 600:
+                t = todo.pop()
+                if t.get_id() in seen_ids:
+                    continue
+                seen_ids.add(t.get_id())
+                if z3.is_const(t) and t.decl().kind() == z3.Z3_OP_UNINTERPRETED and t.sort() == z3.RealSort():
+                    nm = t.decl().name()
+                    if nm not in mv:
+                        mv[nm] = t
+                        n_c += 1
+                else:
+                    todo.extend(t.children())
+        except Exception:
+            pass
         st, model, solver, secs = smt_check(assumptions, [z3.Not(claim)], tmo, mv, tactics=tactics)
         if st == 'unknown' and pins:
             # refutation search: pin the inputs to candidate points; a pinned query is easy for the solver.
@@ -240,8 +275,17 @@ class Ctx:
         if st == 'sat':
             md = None
             if model is not None:
+                viol = None
+                for i, (l_, r_) in enumerate(eqs):
+                    a_, b_ = model.get('_eq%d.l' % i), model.get('_eq%d.r' % i)
+                    if a_ is not None and b_ is not None and a_ != b_:
+                        viol = {'index': i, 'code_side': float(a_), 'contract_side': float(b_), 'code_side_term': str(l_)[:160], 'contract_side_term': str(r_)[:160]}
+                        break
+                model = {k: v for k, v in model.items() if not str(k).startswith('_eq')}
                 md = {k: (str(v) if not isinstance(v, Fraction) else '%s' % (v,)) for k, v in model.items()}
                 md['_float'] = {k: float(v) for k, v in model.items() if isinstance(v, (Fraction, int)) and not isinstance(v, bool)}
+                if viol is not None:
+                    md['_violated_equality'] = viol
             self.results.append(GoalResult(gid, FAILED, 'B', secs, detail='counterexample', model=md, solver=solver, kind=kind))
             return FAILED
         self.results.append(GoalResult(gid, UNDECIDED, 'B', secs, detail='solver answered unknown / timeout', solver=solver, kind=kind))
